@@ -6,12 +6,12 @@
     float) that meet every hypothesis of C20_gen_wf_partial and C20_gen_decodes. *)
 From Coq Require Import List NArith Bool String.
 From ApiFu Require Import Base.Sexp Gen.GoTypes Gen.ClientGenModel Gen.DecodeModel Gen.ClientGenSpec
-     Gen.ClientGenMain Gen.ClientGenWitness.
+     Gen.ClientGenMain Gen.ClientGenWitness Gen.ClientGenDeclSafe Gen.ClientGenClauses.
 Import ListNotations.
 Open Scope string_scope.
 
 Example c20_hypotheses_hold :
-  env ex_schema ex_doc = true /\ excl_member_clash ex_schema ex_doc = false /\ excl_decl_clash ex_schema ex_doc = false /\
+  env ex_schema ex_doc = true /\ excl_member_clash ex_schema ex_doc = false /\ decl_safe ex_schema ex_doc = true /\
   In ex_op_linked (d_ops ex_doc) /\ op_name ex_op_linked = Some (bs "Q") /\
   conforms ex_schema ex_op_linked ex_resp = true.
 Proof. repeat split; try (vm_compute; reflexivity). left. reflexivity. Qed.
@@ -23,9 +23,9 @@ Example c20_instance :
                 (forall pl, In pl (leaves v) <-> In pl (expected ex_schema ex_op_linked ex_resp)).
 Proof.
   destruct c20_hypotheses_hold as (H1 & H2 & H3 & H4 & H5 & H6).
-  destruct (gen_accepts_wf ex_schema ex_doc H1 H2 H3) as [p [Hg Hw]].
+  destruct (gen_accepts_wf_safe ex_schema ex_doc H1 H2 H3) as [p [Hg Hw]].
   exists p. split; [exact Hg|]. split; [exact Hw|].
-  apply (gen_decodes ex_schema ex_doc H1 H2 H3 p ex_op_linked (bs "Q") ex_resp Hg H4 H5 H6).
+  apply (gen_decodes_safe ex_schema ex_doc H1 H2 H3 p ex_op_linked (bs "Q") ex_resp Hg H4 H5 H6).
 Qed.
 
 (** the instance is not trivial: the response has leaves below fragments of both concrete types *)
